@@ -96,6 +96,27 @@ impl<T> NumbatList<T> {
     }
 }
 
+/// Read-only accessors for the `verif` hooks: which allocation a list value refers to,
+/// through which window, and how many values share it.
+#[cfg(feature = "verif")]
+impl<T> NumbatList<T> {
+    pub fn verif_alloc_id(&self) -> usize {
+        Arc::as_ptr(&self.alloc) as usize
+    }
+
+    pub fn verif_view(&self) -> Option<(usize, usize)> {
+        self.view
+    }
+
+    pub fn verif_alloc_len(&self) -> usize {
+        self.alloc.len()
+    }
+
+    pub fn verif_strong_count(&self) -> usize {
+        Arc::strong_count(&self.alloc)
+    }
+}
+
 impl<T: Clone> NumbatList<T> {
     fn make_mut(&mut self) -> (&mut Option<(usize, usize)>, &mut VecDeque<T>) {
         if Arc::strong_count(&self.alloc) != 1 {
